@@ -197,3 +197,16 @@ CHECKS['C18'] = dict(level='other',
         '(C05), vector overloads (lane uniformity against these scalar forms is C01). One known finding: both rotate functions rotate in the direction opposite to their name and documentation.',
    technique='bit-placement normal forms and OR-set abstract domain over instantiated LLVM IR; sibling term identity; decision-tree exploration with symbolic remainder analysis (linear forms over the remainder range)')
 NOT_APPLICABLE.pop('C18', None)
+
+CHECKS['C19'] = dict(level='other',
+   text='YCoCg2rgb(rgb2YCoCg(c)) == c and the converse, and the same for rgb2YCoCgR / YCoCgR2rgb, as rational identities for float and double; for every integer element type (int8 ... uint64) the composed kernel '
+        'YCoCgR2rgb(rgb2YCoCgR(c)) (and the converse) reduces to the input lanes themselves, i.e. the integer transform is exactly lossless for every input of the type. convertLinearToSRGB / convertSRGBToLinear (default and '
+        'explicit gamma, vector lengths 1-4, float and double): every colour lane is the same two-segment function of its own component, alpha is the input alpha, the encoder clamps to [0, 1]; the constants read off the two '
+        'functions agree as inverse curves need (slopes and power-segment scales reciprocal, offsets equal, exponents reciprocal, thresholds corresponding through the linear segment, 5e-5 relative); f(0) == 0 and '
+        'f(1) == 1 within 1e-6; both segments increase and the power segment does not start below the linear one at the junction. saturation(s) has rows summing to 1 for every s (grey preserved), is the blend '
+        '(1 - s) * luminance + s * identity, and its vector overloads apply it; luminosity is the dot product with the documented (0.33, 0.59, 0.11).',
+   note='Decided: the algebra of the round trips (all inputs), lane discipline and alpha pass-through, writer/reader agreement of the sRGB constants, fixed points, junction continuity by evaluating the constants of the code with '
+        'mpmath. Not decided: numeric accuracy of pow-based round trips, monotonicity inside a segment beyond the signs of its parameters, the lowp fast approximation, rgbColor / hsvColor (sector arithmetic with floor and '
+        'epsilon comparisons). Known finding: the explicit-gamma overloads are discontinuous (not monotone, encoder leaves [0, 1]) for gamma away from 2.4. Level "other": mixed structural rule set.',
+   technique='polynomial / term normal forms of composed kernels over instantiated LLVM IR; structural extraction of curve parameters and writer/reader constant agreement; partial evaluation of constants')
+NOT_APPLICABLE.pop('C19', None)
